@@ -667,17 +667,87 @@ def rec_csv(arg):
     text = render_rows(recs)
     probes = list(range(-1, top + 2))
     exc = "none"
-    table = []
+    table, table2, touch = [], [], []
     try:
         real = read_constraints_from_csv(tmp_csv(text))
         for col in project_table(real, -1, top + 1):
             table.append([[k, c["any"], c["m"]] for k, c in sorted(col.items())])
+        # the caller adds values to up to two cells of the table it was handed; the whole table is projected again
+        cells = [(ci, k) for ci, col in enumerate(real) for k in sorted(col)]
+        for _ in range(min(len(cells), rnd.choice([1, 2]))):
+            ci, k = rnd.choice(cells)
+            v = rnd.randrange(top)
+            real[ci][k].add_value(v)
+            touch.append([ci + 1, k, v])
+        for col in project_table(real, -1, top + 1):
+            table2.append([[k, c["any"], c["m"]] for k, c in sorted(col.items())])
     except Exception as e:  # noqa
         exc = common.exc_signature(e)
-    return {"tid": tid, "ev": "csv", "rows": rows, "probes": probes, "table": table, "exc": exc, "text": text}
+        table, table2, touch = [], [], []
+    return {"tid": tid, "ev": "csv", "rows": rows, "probes": probes, "table": table, "touch": touch, "table2": table2, "exc": exc, "text": text}
 
 
-RECORDERS = {"vs": rec_vs, "seq": rec_seq, "csv": rec_csv}
+def rec_obj(arg):
+    """Value sets as objects: a few variables name real objects, some of which are the cells of a table; a
+    random sequence of in-place additions and of operations that return sets (union, wildcard, constructor,
+    allowed_values_for) is applied and the contents of EVERY variable's object are recorded after every step."""
+    from vc2_conformance import constraint_table as ct
+
+    tid, seed = arg
+    rnd = random.Random(seed)
+    top = rnd.choice([6, 12, 24])
+    probes = list(range(-1, top + 1))
+    keys = ["k1", "k2"]
+    ncell = rnd.choice([0, 2, 3, 4])
+    nreg = ncell + rnd.choice([2, 3])
+    regs = [None] + [ct.ValueSet() for _ in range(nreg)]  # 1-based like the spec
+    # the table's cells are the objects of the first ncell variables (held by reference)
+    tab, table = [], []
+    x = 1
+    while x <= ncell:
+        col, d = [], {}
+        for k in keys:
+            if x <= ncell and (not col or rnd.random() < 0.6):
+                col.append([k, x])
+                d[k] = regs[x]
+                x += 1
+        tab.append(col)
+        table.append(d)
+    free = list(range(ncell + 1, nreg + 1))
+    steps, mem = [], []
+    for _ in range(rnd.randrange(4, 11)):
+        y = rnd.random()
+        if y < 0.25:
+            st = ["add_value", rnd.randrange(1, nreg + 1), rnd.randrange(top), 0]
+            regs[st[1]].add_value(st[2])
+        elif y < 0.45:
+            lo = rnd.randrange(top)
+            st = ["add_range", rnd.randrange(1, nreg + 1), lo, min(top - 1, lo + rnd.choice([0, 1, 2, 5]))]
+            regs[st[1]].add_range(st[2], st[3])
+        elif y < 0.7 or not tab:
+            st = ["union", rnd.choice(free), rnd.randrange(1, nreg + 1), rnd.randrange(1, nreg + 1)]
+            regs[st[1]] = regs[st[2]] + regs[st[3]]
+        elif y < 0.74:
+            st = ["any", rnd.choice(free), 0, 0]
+            regs[st[1]] = ct.AnyValue()
+        elif y < 0.8:
+            st = ["new", rnd.choice(free), 0, 0]
+            regs[st[1]] = ct.ValueSet()
+        else:
+            key = rnd.choice(keys)
+            chosen = []
+            for k in keys:
+                if k != key and rnd.random() < 0.6:
+                    cands = [v for c in table if k in c and not isinstance(c[k], ct.AnyValue) for v in c[k].iter_values()]
+                    chosen.append([k, rnd.choice(cands) if cands and rnd.random() < 0.85 else rnd.randrange(top)])
+            st = ["avf", rnd.choice(free), key, chosen]
+            regs[st[1]] = ct.allowed_values_for(table, key, dict((k, v) for k, v in chosen))
+        steps.append(st)
+        mem.append([[isinstance(o, ct.AnyValue), [p for p in probes if p in o]] for o in regs[1:]])
+    return {"tid": tid, "ev": "obj", "nreg": nreg, "probes": probes, "tab": tab, "steps": steps, "mem": mem}
+
+
+RECORDERS = {"vs": rec_vs, "seq": rec_seq, "csv": rec_csv, "obj": rec_obj}
 
 
 def rec_any(job):
@@ -688,10 +758,10 @@ def rec_any(job):
 def trace_direction(ctx):
     from .. import trace
 
-    counts = ctx.pick({"vs": 700, "seq": 900, "csv": 400}, {"vs": 8000, "seq": 10000, "csv": 4000})
+    counts = ctx.pick({"vs": 700, "seq": 900, "csv": 400, "obj": 600}, {"vs": 8000, "seq": 10000, "csv": 4000, "obj": 8000})
     jobs = []
     tid = 0
-    for kind in ("vs", "seq", "csv"):
+    for kind in ("vs", "seq", "csv", "obj"):
         for _ in range(counts[kind]):
             tid += 1
             jobs.append((kind, tid, ctx.seed * 1000003 + tid))
@@ -716,21 +786,34 @@ def trace_direction(ctx):
     # binding self-test: corrupt one recorded field per event kind -> exactly that line is rejected
     try:
         probe = []
-        for kind in ("vs", "seq", "csv"):
-            r = dict(next(x for x in sendable if x["ev"] == kind and x.get("exc", "none") == "none" and (kind != "seq" or (x["acc"] and all(len(c) > 0 for c in x["tab"]) and len(set(k for k, _ in x["seq"])) == len(x["seq"])))))
+        for kind in ("vs", "seq", "csv", "csv", "obj"):
+            r = dict(next(x for x in sendable if x["ev"] == kind and x.get("exc", "none") == "none" and (kind != "seq" or (x["acc"] and all(len(c) > 0 for c in x["tab"]) and len(set(k for k, _ in x["seq"])) == len(x["seq"]))) and (kind != "csv" or x["touch"]) and (kind != "obj" or any(not m[0] for m in x["mem"][-1]))))
             probe.append(r)
         probe[0] = dict(probe[0], dab=not probe[0]["dab"])
         probe[1] = dict(probe[1], acc=[not probe[1]["acc"][0]] + probe[1]["acc"][1:])
         probe[2] = dict(probe[2], table=probe[2]["table"] + [[["k9", False, [0]]]])
+        # an addition that leaked into / is missing from a cell after the caller's additions
+        probe[3] = dict(probe[3], table2=probe[3]["table"] if probe[3]["table2"] != probe[3]["table"] else [[[k, a, m + [probe[3]["probes"][-1]]] for k, a, m in col] for col in probe[3]["table2"]])
+        # a value showing up in (or vanishing from) an object the last step was not applied to
+        last = [list(m) for m in probe[4]["mem"][-1]]
+        j = next(i for i, m in enumerate(last) if not m[0])
+        pr = probe[4]["probes"]
+        last[j] = [False, [q for q in pr if q not in last[j][1]][:1] + last[j][1] if len(last[j][1]) < len(pr) else last[j][1][1:]]
+        probe[4] = dict(probe[4], mem=probe[4]["mem"][:-1] + [last])
         pbad, _ = trace.validate("ConstraintTrace", probe)
         got = sorted((b["line"], b["clause"].split("(")[0], b["alarm"]) for b in pbad)
-        want = [(1, "Disjoint", True), (2, "Incremental", True), (3, "CsvCells", True)]
+        want = [(1, "Disjoint", True), (2, "Incremental", True), (3, "CsvCells", True), (4, "CsvCellsAfterAdd", True), (5, "ContainsExactlyUnion", True)]
         okst = all(w in got for w in want)
     except StopIteration:
         got, okst = "no suitable recorded event", False
     guard(ctx, okst, "trace binding self-test failed: corrupted fields judged as %r" % (got,))
     stats = {"judged_sequences": nseq_judged, "fully_accepted_sequences": nacc, "rejected_sequences": nrej, "disjoint_pairs": ndis, "overlapping_pairs": nover}
-    return len(records), dis, stats, [sendable[0], sendable[counts["vs"]], sendable[counts["vs"] + counts["seq"]]]
+    nobj_steps = sum(len(r["steps"]) for r in records if r["ev"] == "obj")
+    nobj_ret = sum(1 for r in records if r["ev"] == "obj" for i, st in enumerate(r["steps"]) if st[0] in ("union", "avf") and any(t[0] in ("add_value", "add_range") for t in r["steps"][i + 1 :]))
+    ncsv_touch = sum(len(r["touch"]) for r in records if r["ev"] == "csv")
+    guard(ctx, min(nobj_ret, ncsv_touch) > 0, "vacuity in recorded object traces: returned-set-then-addition=%d csv additions=%d" % (nobj_ret, ncsv_touch))
+    stats.update({"object_steps": nobj_steps, "returned_sets_followed_by_additions": nobj_ret, "csv_cell_additions": ncsv_touch})
+    return len(records), dis, stats, [sendable[0], sendable[counts["vs"]], sendable[counts["vs"] + counts["seq"]], sendable[counts["vs"] + counts["seq"] + counts["csv"]]]
 
 
 # ------------------------------------------------------------------------------------------ run
@@ -926,11 +1009,11 @@ def run(ctx):
             "trace_spec_disagreements": tdis,
             "evaluations": len(allg) + ntr,
             "distinct_nontrivial": sum(1 for r in allg if r["len"] >= 2),
-            "rule": "one shortest history per abstract transition (pre-state, operation) of ValueSets / ConstraintTable / ConstraintCsv, replayed on the real code and compared with the spec's observation of the last step; non-trivial = history of >= 2 operations (CSV: >= 2 rows read by the behaviour)",
+            "rule": "one shortest history per abstract transition (pre-state, operation) of ValueSets / ConstraintTable / ConstraintCsv, replayed on the real code and compared with the spec's observation of the last step (value sets are objects: the contents of BOTH variables' objects are compared after every transition, the origin of each object -- constructor / union of which operands / wildcard -- is part of the abstract state, Touch transitions add to a set handed out by allowed_values_for / to a cell read from CSV and compare every cell of the table); non-trivial = history of >= 2 operations (CSV: >= 2 rows read by the behaviour)",
             "exhaustive": True,
-            "bounds": {"valuesets": vs_consts, "tables": tb_consts, "csv_cells": cs1, "csv_rows": cs2, "note": "ranges have lo <= hi; inverted ranges, negative numbers in CSV and non-integer values are out of scope"},
+            "bounds": {"valuesets": vs_consts, "valuesets_object_identity": vd_consts, "tables": tb_consts, "csv_cells": cs1, "csv_rows": cs2, "note": "ranges have lo <= hi; inverted ranges, negative numbers in CSV and non-integer values are out of scope"},
             "spec_disagreements": dis,
-            "binding_selftest": {"mutant": "ValueSet.is_disjoint that does not test the end points of the other set's ranges (in-process monkeypatch)", "histories_flagging_it": hit, "trace": "flipping a recorded is_disjoint result / acceptance flag / adding a column to a recorded table is rejected by clauses Disjoint / Incremental / CsvCells"},
+            "binding_selftest": {"mutant": "ValueSet.is_disjoint that does not test the end points of the other set's ranges (in-process monkeypatch)", "histories_flagging_it": hit, "trace": "flipping a recorded is_disjoint result / acceptance flag / adding a column to a recorded table / dropping a caller's addition from a recorded CSV table / moving a value into another object's recorded contents is rejected by clauses Disjoint / Incremental / CsvCells / CsvCellsAfterAdd / ContainsExactlyUnion(every object)", "sharing_mutant": "ValueSet.__add__ returning its left operand itself when the right one is empty (in-process monkeypatch)", "histories_flagging_sharing_mutant": hit_share, "spec_level": spec_selftest},
             "samples": [pick_sample(out_vs, 2), pick_sample(extra_vs, 2), pick_sample(out_tb, 2), pick_sample([r for r in out_tb if r.get("touch")], 2), pick_sample(out_c1, 3), pick_sample([r for r in out_c1 if r["last"] == "touch"], 3)] + tsamples,
         }
     )
@@ -939,6 +1022,7 @@ def run(ctx):
         "membership is projected over a probe universe slightly wider than the values used (-2..N+1)",
         "CSV spelling variants (case of any/TRUE/FALSE, ditto character, blanks after commas) are chosen by the driver, the cell grammar by the spec",
         "assert_level_constraint is exercised with decoder.assertions.LEVEL_CONSTRAINTS replaced in-process by the table under test",
+        "a set returned by +, AnyValue(), ValueSet(...), allowed_values_for (without any_value=) or held in a table read from CSV is an object of its own: additions to it change no other set (filter_constraint_table returns the table's own columns by design and is not covered by this)",
     ]
 
 
